@@ -24,6 +24,10 @@ func CheckCallers(p *Prog, h *RuleH, fns []*ssa.Function, rules []CallerRule) {
 	for i := range rules {
 		bySink[rules[i].Sink] = &rules[i]
 	}
+	if h.r.Tier == "thorough" {
+		// whole program: every module function that was loaded (./... in this tier), not only the rule's packages
+		fns = p.Funcs()
+	}
 	sites := CallSites(fns, func(s Site) bool { return bySink[s.Name] != nil })
 	sort.SliceStable(sites, func(i, j int) bool { return FuncName(sites[i].Fn) < FuncName(sites[j].Fn) })
 	for _, s := range sites {
